@@ -98,3 +98,39 @@ func VerifHarness_C04_header_authenticated() {
 	}
 	verifReach("rejected")
 }
+
+// C04 — the record sequence number is a 64-bit big-endian counter: from ANY value below the wrap, one record
+// advances it by exactly one, carries included (the value is MAC input / additional data / explicit nonce, so
+// an independent implementation must be able to predict it for every record of a long connection, not only
+// the first 255). One-step lemma on the real incSeq with a symbolic pre-state; the wrap itself must panic
+// rather than reuse a nonce.
+//
+//verif:harness props=C04 paths=200 reach=done,wrap
+func VerifHarness_C04_sequence_increment() {
+	var hc halfConn
+	s := verifNondetU64("seq")
+	for i := 0; i < 8; i++ {
+		hc.seq[i] = byte(s >> uint(56-8*i))
+	}
+	if s == ^uint64(0) {
+		wrapped := false
+		func() {
+			defer func() {
+				if recover() != nil {
+					wrapped = true
+				}
+			}()
+			hc.incSeq()
+		}()
+		verifReach("wrap")
+		verifAssert("C04.seq.wrapIsRefused", wrapped)
+		return
+	}
+	hc.incSeq()
+	var got uint64
+	for i := 0; i < 8; i++ {
+		got = got<<8 | uint64(hc.seq[i])
+	}
+	verifAssert("C04.seq.incrementIsPlusOneBigEndian", got == s+1)
+	verifReach("done")
+}
